@@ -1050,7 +1050,7 @@ def rt_strategy(draw):
 
 @st.composite
 def scenarios(draw):
-    if draw(st.integers(0, 5)) == 5:
+    if draw(st.integers(0, 5)) >= 4:
         return draw(rt_strategy())
     return draw(dec_strategy())
 
@@ -1096,4 +1096,4 @@ def fixed_scenarios(S, tier, seed):
 
 
 if __name__ == "__main__":
-    raise SystemExit(base.main("c18", scenarios, oracle, budgets={"quick": 800, "thorough": 10000}, extra_runs=fixed_scenarios))
+    raise SystemExit(base.main("c18", scenarios, oracle, budgets={"quick": 1000, "thorough": 12000}, extra_runs=fixed_scenarios))
